@@ -125,6 +125,14 @@ def _int_worker(d, chunk, extra):
         for t, dom in zip(texts, (r, "dec", "hex", "oct", "bin")):
             follow.append((L, v, t, dom, r))
     rs2 = d.batch([drv.run_cmd(t, lim=3) for (_, _, t, _, _) in follow])
+    # the same texts once more, each right after a literal that is rejected as out of range: reading a literal back
+    # must not depend on what the parser was given before
+    rs3 = d.batch([c for (_, _, t, _, _) in follow for c in (drv.run_cmd("18446744073709551616", lim=1), drv.run_cmd("-9223372036854775809", lim=1), drv.run_cmd(t, lim=3))])
+    for i, ((L, v, t, dom, r), rb) in enumerate(zip(follow, rs2)):
+        again = rs3[3 * i + 2]
+        if not rb.crash and again.results() != rb.results():
+            out["bad"].append(("int:%s|%s|%s|after-reject" % (L, dom, t), "`%s` reads back as %r, but right after a rejected out-of-range literal it reads back as %r" % (
+                t, rb.results() or rb.lines[:1], again.results() or again.lines[:1]), {"part": "int", "v": v, "r": r}))
     for (L, v, t, dom, r), rb in zip(follow, rs2):
         out["n"] += 1
         exp = "c:%s:%d@0" % (dom, v)
